@@ -158,18 +158,21 @@ fn form_to_skk_okuri(form: &VerbForm) -> &str {
 /// SKKのnotesでは、辞書形が見出しから確定できないものに限っては、固定されたものが設定されているため、
 /// 迂遠だがこういう形をとらないといけない
 fn drop_dictionary_okuri(word: &str, speech: &NoteSpeech) -> String {
+    // 送り仮名は文字単位で取り除く。語幹には仮名以外の文字も含まれるため、バイト長では切り出せない
+    let len = word.chars().count();
     match speech {
         NoteSpeech::Verb(form, _) => {
-            let okuri = form_to_skk_okuri(form);
+            let okuri = form_to_skk_okuri(form).chars().count();
 
-            if word.len() == okuri.len() {
-                word.chars().next().unwrap().to_string()
+            if len <= okuri {
+                word.chars().take(1).collect()
             } else {
-                word[..(word.len() - okuri.len())].to_string()
+                word.chars().take(len - okuri).collect()
             }
         }
-        NoteSpeech::Adjective(_) => word[..(word.len() - "い".len())].to_string(),
-        NoteSpeech::AdjectivalVerb(_) => word[..(word.len() - "だ".len())].to_string(),
+        NoteSpeech::Adjective(_) | NoteSpeech::AdjectivalVerb(_) => {
+            word.chars().take(len.saturating_sub(1)).collect()
+        }
         _ => word.to_string(),
     }
 }
